@@ -110,6 +110,13 @@ C12_twin(h, s) ==
                                 /\ (Len(s) >= 1 => Len(fs) = 2 /\ fs[2].fsrc = ap(s[1].p.dst, s[1].p.dport) /\ fs[2].fdst = ap(s[1].p.src, s[1].p.sport))
             [] OTHER -> TRUE
 
+\* arrivals on the wire that no capture handle of the (single, parallel-engine) run read or filtered: the run had stopped listening
+Undelivered(h, d) ==
+    IF IsSerial(V(h)) THEN <<>>
+    ELSE LET seen == {d[i].pkt : i \in DOMAIN d} \cup {h.fil[i].pkt : i \in DOMAIN h.fil}
+             idx == SelectSeq([k \in DOMAIN h.arr |-> k], LAMBDA k : k \notin seen /\ h.arr[k].t >= h.out.t)
+         IN [i \in DOMAIN idx |-> [n |-> h.arr[idx[i]].n, t |-> h.arr[idx[i]].t, pkt |-> idx[i], h |-> 0, run |-> 1]]
+
 \* is property p applicable to the finished scenario h / does it hold (evaluated lazily, only when applicable)
 App(p, h) ==
     LET s == snt1(h)  ok == h.out.ok IN
@@ -152,7 +159,8 @@ Holds(p, h) ==
       [] ReqRun(h) -> (CASE p = "C11" -> C11_run(h) [] p = "C15" -> C15_run(h) /\ C15_samples(h) [] p = "C19" -> C19_run(h) [] p = "C20" -> C20_run(h) [] p = "C17" -> C17_run(h) [] OTHER -> TRUE)
       [] p = "C01" -> C01_run(h, s, d, hp)
       \* completeness is owed to what ARRIVED at the host: a packet the installed capture filter rejected counts as arrived
-      [] p = "C02" -> C02_run(h, s, IF h.par.filter THEN SortSeq(d \o SelectSeq(h.fil, LAMBDA x : x.run = 1), LAMBDA a, b : a.n < b.n) ELSE d, hp)
+      \* ... and so does a packet that arrived inside the window after a parallel run had already stopped listening
+      [] p = "C02" -> C02_run(h, s, SortSeq(d \o (IF h.par.filter THEN SelectSeq(h.fil, LAMBDA x : x.run = 1) ELSE <<>>) \o Undelivered(h, d), LAMBDA a, b : a.n < b.n), hp)
       [] p = "C03" -> C03_run(h, s, d, hp)
       [] p = "C04" -> C04_run(h, s, d, hp)
       [] p = "C05" -> C05_run(h, s, d, hp)
